@@ -1,5 +1,480 @@
 package main
 
-import "verifharness/internal/vf"
+// C09 — every downstream operation targets the mapped database and collection.
+//
+// Real code in the loop: ChannelWriter (HandleOpMessagePack, HandleReplicateAPIEvent, HandleReplicateMessage, the
+// readiness probes they trigger) with name mappings installed through UpdateNameMappings, as the server does.
+// Reference: direct table lookup (exact entry, else whole-database entry, else unchanged, "" == "default") applied
+// to the SOURCE names of the generated operation; compared with the names in the request AND with
+// ReplicateParam.Database (what MilvusDataHandler routes by) of every recorded call, probes included.
 
-func runC09(tier string) *vf.Run { return vf.NewRun("C09", tier, "exploration") }
+import (
+	"context"
+	"fmt"
+	"strings"
+	"sync"
+	"time"
+
+	"github.com/milvus-io/milvus-proto/go-api/v2/commonpb"
+	"github.com/milvus-io/milvus-proto/go-api/v2/milvuspb"
+	"github.com/milvus-io/milvus-proto/go-api/v2/msgpb"
+	"github.com/milvus-io/milvus/pkg/mq/msgstream"
+	"google.golang.org/protobuf/proto"
+
+	"github.com/zilliztech/milvus-cdc/core/writer"
+
+	"verifharness/internal/vf"
+	"verifharness/internal/wfakes"
+)
+
+var c09DML = []string{"Insert", "Delete", "DropCollection", "DropPartition", "Import"}
+
+var c09Shapes = []string{"none", "exact", "whole-db", "unrelated-other-db", "unrelated-same-db", "exact+whole-db"}
+
+type c09Cell struct {
+	Kind    string            `json:"kind"` // op-message kind, event kind, or "DML:<type>"
+	DB      string            `json:"db"`
+	Coll    string            `json:"coll"`
+	Part    string            `json:"part"`
+	Shape   string            `json:"shape"`
+	Mapping map[string]string `json:"mapping"`
+	Rep     int               `json:"rep"`
+}
+
+func c09Mapping(shape, db, coll string, r *randSrc) map[string]string {
+	sdb := normDB(db)
+	t1, t2, x := randName(r.Rand, "t1"), randName(r.Rand, "t2"), randName(r.Rand, "x")
+	switch shape {
+	case "exact":
+		return map[string]string{sdb + "." + coll: t1 + "." + x}
+	case "whole-db":
+		return map[string]string{sdb + ".*": t1 + ".*"}
+	case "unrelated-other-db":
+		return map[string]string{"dz.*": "tz.*", "dy." + coll: "ty." + x}
+	case "unrelated-same-db":
+		return map[string]string{sdb + ".other_" + coll: t2 + "." + x}
+	case "exact+whole-db":
+		return map[string]string{sdb + "." + coll: t1 + "." + x, sdb + ".*": t2 + ".*"}
+	}
+	return map[string]string{}
+}
+
+type c09Checker struct {
+	run   *vf.Run
+	cell  c09Cell
+	ref   nameMap
+	edb   string
+	ecoll string
+	how   string
+	// for the exact+whole-db shape: what the whole-database entry alone would give
+	wdb, wcoll string
+	calls      string
+}
+
+func (k *c09Checker) bad(callKind, field, got, want string) {
+	key := fmt.Sprintf("C09/%s/%s", callKind, field)
+	if wfakes.IsProbe(callKind) {
+		key += "/during-" + k.cell.Kind
+	}
+	k.run.Violate(key, fmt.Sprintf("%s %q.%q (partition %q), mapping %v (%s): %s call carries %s = %q, the mapping of the source names gives %q [all calls: %s]",
+		k.cell.Kind, k.cell.DB, k.cell.Coll, k.cell.Part, k.cell.Mapping, k.how, callKind, field, got, want, k.calls), k.cell)
+}
+
+// names checks one (database, collection) pair found in a call. dbField/collField name the fields for the key.
+func (k *c09Checker) names(callKind, dbField, gotDB string, dbOptional bool, collField, gotColl string, hasColl bool) {
+	dbOK := normDB(gotDB) == k.edb || (dbOptional && gotDB == "")
+	collOK := !hasColl || gotColl == k.ecoll
+	if dbOK && collOK {
+		return
+	}
+	// the exact+whole-db shape: one defect, one key — a component that carries what the whole-database entry
+	// alone would give means the whole-database entry was preferred over the collection-level entry
+	order := false
+	if k.cell.Shape == "exact+whole-db" {
+		if !dbOK && normDB(gotDB) == k.wdb && k.wdb != k.edb {
+			order, dbOK = true, true
+		}
+		if !collOK && gotColl == k.wcoll && k.wcoll != k.ecoll {
+			order, collOK = true, true
+		}
+	}
+	if order {
+		k.run.Count("exact_lost_to_wildcard", 1)
+		k.run.Violate("C09/exact-entry-loses-to-whole-database-entry-by-map-order",
+			fmt.Sprintf("%s %q.%q, mapping %v: %s call carries %s=%q %s=%q; the collection-level entry gives %s.%s, the whole-database entry (which must only apply when there is no collection-level entry) gives %s.%s [rep %d]",
+				k.cell.Kind, k.cell.DB, k.cell.Coll, k.cell.Mapping, callKind, dbField, gotDB, collField, gotColl, k.edb, k.ecoll, k.wdb, k.wcoll, k.cell.Rep), k.cell)
+	}
+	if !dbOK {
+		k.bad(callKind, dbField, gotDB, k.edb)
+	}
+	if !collOK {
+		k.bad(callKind, collField, gotColl, k.ecoll)
+	}
+}
+
+func (k *c09Checker) check(c *wfakes.Call, disp *msgstream.ProtoUnmarshalDispatcher) {
+	switch c.Kind {
+	case wfakes.KCreateDatabase, wfakes.KDropDatabase, wfakes.KAlterDatabase:
+		var got string
+		switch r := c.Req.(type) {
+		case *milvuspb.CreateDatabaseRequest:
+			got = r.GetDbName()
+		case *milvuspb.DropDatabaseRequest:
+			got = r.GetDbName()
+		case *milvuspb.AlterDatabaseRequest:
+			got = r.GetDbName()
+		}
+		must, unspec := k.ref.refDB(k.cell.DB)
+		if normDB(got) == must {
+			return
+		}
+		for _, u := range unspec {
+			if got == u {
+				// database-level operation, only collection-level entries exist for that database: the
+				// statement does not say where the database itself goes
+				k.run.Count("unspecified_db_level_op_with_collection_level_entry", 1)
+				return
+			}
+		}
+		k.bad(c.Kind, "request-db-name", got, must)
+	case wfakes.KDescribeDB:
+		k.names(c.Kind, "name", c.Name, false, "", "", false)
+	case wfakes.KDescribeColl:
+		k.names(c.Kind, "routing-db", c.RouteDB, false, "name", c.Coll, true)
+	case wfakes.KDescribePart, wfakes.KCreatePartition, wfakes.KDropPartition:
+		k.names(c.Kind, "routing-db", c.RouteDB, false, "collection-name", c.Coll, true)
+		if c.Part != k.cell.Part {
+			k.bad(c.Kind, "partition-name", c.Part, k.cell.Part)
+		}
+	case wfakes.KCreateCollection:
+		k.names(c.Kind, "routing-db", c.RouteDB, false, "schema-collection-name", c.Coll, true)
+	case wfakes.KDropCollection:
+		k.names(c.Kind, "routing-db", c.RouteDB, false, "collection-name", c.Coll, true)
+	case wfakes.KFlush:
+		r := c.Req.(*milvuspb.FlushRequest)
+		got := strings.Join(r.GetCollectionNames(), ",")
+		k.names(c.Kind, "routing-db", c.RouteDB, false, "collection-names", got, true)
+		k.names(c.Kind, "request-db-name", r.GetDbName(), true, "", "", false)
+	case wfakes.KCreateIndex, wfakes.KDropIndex, wfakes.KAlterIndex, wfakes.KLoadCollection, wfakes.KReleaseCollection, wfakes.KLoadPartitions, wfakes.KReleasePartitions:
+		r := c.Req.(interface {
+			GetDbName() string
+			GetCollectionName() string
+		})
+		k.names(c.Kind, "routing-db", c.RouteDB, false, "collection-name", r.GetCollectionName(), true)
+		k.names(c.Kind, "request-db-name", r.GetDbName(), true, "", "", false)
+	case wfakes.KOperatePrivilege:
+		r := c.Req.(*milvuspb.OperatePrivilegeRequest)
+		e := r.GetEntity()
+		if normDB(e.GetDbName()) != k.edb || e.GetObjectName() != k.ecoll {
+			k.run.Violate("C09/OperatePrivilege/grant-db-and-collection-not-mapped",
+				fmt.Sprintf("OperatePrivilege on collection %q.%q, mapping %v (%s): the downstream grant names database %q, object %q; the mapping of the source names gives %s.%s",
+					k.cell.DB, k.cell.Coll, k.cell.Mapping, k.how, e.GetDbName(), e.GetObjectName(), k.edb, k.ecoll), k.cell)
+		}
+	case wfakes.KReplicateMessage:
+		for i, b := range c.RM.MsgsBytes {
+			hdr := &commonpb.MsgHeader{}
+			if err := proto.Unmarshal(b, hdr); err != nil {
+				continue
+			}
+			m, err := disp.Unmarshal(b, hdr.GetBase().GetMsgType())
+			if err != nil {
+				continue
+			}
+			if gdb, gcoll, ok := getNames(protoOf(m)); ok {
+				k.names("ReplicateMessage:"+hdr.GetBase().GetMsgType().String(), "db-name", gdb, false, "collection-name", gcoll, true)
+				_ = i
+			}
+		}
+	}
+}
+
+func c09Spec(kind, db, coll, part string, ts uint64, id int64) *opSpec {
+	s := c08Spec(kind, db, coll, part, ts, id)
+	switch kind {
+	case "CreateCredential", "DeleteCredential", "UpdateCredential", "OperateUserRole":
+		s.User, s.Pwd, s.OldPwd, s.NewPwd, s.Role = "u1", "cHdk", "b2xk", "bmV3", "r1"
+	case "CreateRole", "DropRole":
+		s.Role = "r1"
+	case "OperatePrivilege":
+		s.Role, s.Object, s.ObjName, s.Privilege, s.Grantor, s.GrantDB = "r1", "Collection", coll, "Insert", "root", db
+	}
+	return s
+}
+
+func runC09(tier string) *vf.Run {
+	run := vf.NewRun("C09", tier, "exploration")
+	run.Exhaustive = true
+	run.Rule = "cell = operation kind (18 op-message types, 4 API events, 5 DML message types inside ReplicateMessage; the 3 readiness probes are observed inside them) x source database {\"\", default, d1, d2} x mapping shape {none, exact, whole-db, unrelated (other database), unrelated (same database, other collection), exact+whole-db together}; each cell with several random name fillings; the exact+whole-db shape is repeated 50 times per cell because the mapping table is ranged in random order. Every recorded call of every cell is compared with the reference mapping. Plus bookkeeping scenarios per mapped shape x database: mapped drop of a collection / partition / database, then an older operation on the SOURCE name (must be skipped) and an operation on a source object that merely bears the MAPPED name (must not be skipped); and a drop delivered while the downstream call is in flight under a whole-database mapping (must end as a successful skip). Non-trivial = every cell; distinct by (kind, db, shape)."
+	run.Assumptions = []string{
+		"the recording handler accepts every call (no downstream catalog) in the cell sweep, so every probe is answered positively and the operation proceeds to its downstream call",
+		"a request's own db_name field may be empty when the routing database (ReplicateParam.Database) is set: MilvusDataHandler routes by the latter; database-level and RBAC calls are not routed by database",
+		"for a database-level operation when only collection-level entries exist for that database the statement does not say where the database goes: the targets of those entries are tolerated (counted as unspecified_db_level_op_with_collection_level_entry)",
+	}
+	disp := (&msgstream.ProtoUDFactory{}).NewUnmarshalDispatcher()
+	var kinds []string
+	kinds = append(kinds, opMsgKinds...)
+	kinds = append(kinds, eventKinds...)
+	for _, d := range c09DML {
+		kinds = append(kinds, "DML:"+d)
+	}
+	fillings := run.Pick(3, 10)
+	bothReps := run.Pick(50, 200)
+	var id int64 = 1000
+	var uid int64 = 5_000_000
+	ci := 0
+	for _, kind := range kinds {
+		for _, db := range []string{"", "default", "d1", "d2"} {
+			for _, shape := range c09Shapes {
+				reps := fillings
+				if shape == "exact+whole-db" {
+					reps = bothReps
+				}
+				for rep := 0; rep < reps; rep++ {
+					ci++
+					r := newRand(run.Seed, "C09", ci)
+					coll, part := randName(r.Rand, "c"), randName(r.Rand, "p")
+					id += 3
+					cell := c09Cell{Kind: kind, DB: db, Coll: coll, Part: part, Shape: shape, Rep: rep, Mapping: c09Mapping(shape, db, coll, r)}
+					c09RunCell(run, disp, cell, id, &uid, r)
+				}
+			}
+		}
+	}
+	// bookkeeping keyed by source names
+	var wg sync.WaitGroup
+	sem := make(chan struct{}, 16)
+	bi := 0
+	for _, db := range []string{"", "default", "d1"} {
+		for _, shape := range []string{"exact", "whole-db"} {
+			for _, level := range []string{"collection", "partition", "database"} {
+				if level == "database" && normDB(db) == "default" {
+					continue
+				}
+				for rep := 0; rep < run.Pick(2, 10); rep++ {
+					bi++
+					id += 10
+					wg.Add(1)
+					sem <- struct{}{}
+					go func(db, shape, level string, bi int, id int64) {
+						defer func() { <-sem; wg.Done() }()
+						c09Bookkeeping(run, db, shape, level, bi, id)
+					}(db, shape, level, bi, id)
+				}
+			}
+		}
+	}
+	for _, kind := range []string{evCreatePartition, evDropPartition, "Flush", "CreateIndex", "DropIndex", "LoadCollection", "ReleaseCollection", "LoadPartitions", "ReleasePartitions"} {
+		for v := 0; v < run.Pick(2, 6); v++ {
+			id += 10
+			wg.Add(1)
+			sem <- struct{}{}
+			go func(kind string, v int, id int64) {
+				defer func() { <-sem; wg.Done() }()
+				c09ConcurrentDropMapped(run, kind, v, id)
+			}(kind, v, id)
+		}
+	}
+	wg.Wait()
+	run.Floor("cells", len(kinds)*4*len(c09Shapes))
+	run.Floor("probe_cells_DescribeDatabase", 100)
+	run.Floor("probe_cells_DescribeCollection", 100)
+	run.Floor("probe_cells_DescribePartition", 30)
+	run.Floor("bookkeeping_source_name_skips", run.Pick(10, 50))
+	run.Floor("bookkeeping_mapped_name_not_skipped", run.Pick(6, 30))
+	run.Floor("concurrent_drop_under_mapping", run.Pick(8, 24))
+	run.Floor("both_shape_reps", 27*4*run.Pick(50, 200)/2)
+	return run
+}
+
+func c09RunCell(run *vf.Run, disp *msgstream.ProtoUnmarshalDispatcher, cell c09Cell, id int64, uid *int64, r *randSrc) {
+	run.Eval(1)
+	run.Distinct("cells", cell.Kind+"|"+cell.DB+"|"+cell.Shape)
+	run.Nontrivial(cell.Kind + "|" + cell.DB + "|" + cell.Shape)
+	if cell.Shape == "exact+whole-db" {
+		run.Count("both_shape_reps", 1)
+	}
+	if cell.Rep == 0 && cell.Kind == "ReleasePartitions" && cell.DB == "d1" && cell.Shape == "whole-db" {
+		run.Sample(cell)
+	}
+	h := &wfakes.Handler{TargetPos: func(*wfakes.Call) string { return "" }}
+	w, err := newWriter(h, wcfg{Mapping: cell.Mapping})
+	if err != nil {
+		run.Inconclusive(err.Error())
+		return
+	}
+	ref := nameMap(cell.Mapping)
+	k := &c09Checker{run: run, cell: cell, ref: ref}
+	k.edb, k.ecoll, k.how = ref.ref(cell.DB, cell.Coll)
+	if cell.Shape == "exact+whole-db" {
+		wm := nameMap{}
+		for s, t := range cell.Mapping {
+			if strings.HasSuffix(s, ".*") {
+				wm[s] = t
+			}
+		}
+		k.wdb, k.wcoll, _ = wm.ref(cell.DB, cell.Coll)
+	}
+	var derr error
+	if strings.HasPrefix(cell.Kind, "DML:") {
+		typ := strings.TrimPrefix(cell.Kind, "DML:")
+		ts := uint64(1000 + id)
+		m := genDML(r, typ, uid, ts, cell.DB, cell.Coll)
+		tick := genDML(r, "TimeTick", uid, ts+1, "", "")
+		pack := &msgstream.MsgPack{BeginTs: ts, EndTs: ts + 1, Msgs: []msgstream.TsMsg{m, tick},
+			StartPositions: []*msgpb.MsgPosition{{ChannelName: "ch", MsgID: posID(id), Timestamp: ts}},
+			EndPositions:   []*msgpb.MsgPosition{{ChannelName: "ch", MsgID: posID(id + 1), Timestamp: ts + 1}}}
+		_, _, derr = w.HandleReplicateMessage(context.Background(), "by-dev-rootcoord-dml_0", pack)
+	} else {
+		_, derr = deliver(w, c09Spec(cell.Kind, cell.DB, cell.Coll, cell.Part, uint64(1000+id), id))
+	}
+	calls := h.Calls()
+	k.calls = names(calls)
+	if derr != nil {
+		run.Violate("C09/unexpected-error/"+cell.Kind, fmt.Sprintf("%+v: error with an all-accepting downstream: %v", cell, derr), cell)
+		return
+	}
+	main := 0
+	for _, c := range calls {
+		if wfakes.IsProbe(c.Kind) {
+			run.Count("probe_cells_"+c.Kind, 1)
+			run.Distinct("probe_kind_db_shape", c.Kind+"|"+cell.DB+"|"+cell.Shape)
+		} else {
+			main++
+		}
+		k.check(c, disp)
+	}
+	if main != 1 {
+		run.Violate("C09/calls-per-operation/"+cell.Kind, fmt.Sprintf("%+v: %d non-probe downstream calls [%s]", cell, main, k.calls), cell)
+	}
+}
+
+// c09Bookkeeping: after a mapped drop, the skip decision for a later (older-stamped) operation on the SOURCE name
+// is still taken; a source object that merely bears the mapped name is not affected.
+func c09Bookkeeping(run *vf.Run, db, shape, level string, bi int, id int64) {
+	run.Eval(1)
+	r := newRand(run.Seed, "C09book", bi)
+	coll, part := randName(r.Rand, "c"), randName(r.Rand, "p")
+	mapping := c09Mapping(shape, db, coll, r)
+	ref := nameMap(mapping)
+	edb, ecoll, _ := ref.ref(db, coll)
+	rep := map[string]any{"db": db, "coll": coll, "part": part, "shape": shape, "level": level, "mapping": mapping}
+	h := &wfakes.Handler{}
+	w, err := newWriter(h, wcfg{Mapping: mapping})
+	if err != nil {
+		run.Inconclusive(err.Error())
+		return
+	}
+	run.Nontrivial("bookkeeping|" + level + "|" + shape + "|" + normDB(db))
+	var dropSpec, older, onMapped *opSpec
+	switch level {
+	case "collection":
+		dropSpec = c09Spec(evDropCollection, db, coll, part, 200, id)
+		older = c09Spec("CreateIndex", db, coll, part, 150, id+1)
+		onMapped = c09Spec("CreateIndex", edb, ecoll, part, 150, id+2)
+	case "partition":
+		dropSpec = c09Spec(evDropPartition, db, coll, part, 200, id)
+		older = c09Spec("LoadPartitions", db, coll, part, 150, id+1)
+		onMapped = c09Spec("LoadPartitions", edb, ecoll, part, 150, id+2)
+	case "database":
+		dropSpec = c09Spec("DropDatabase", db, "", "", 200, id)
+		older = c09Spec("CreateIndex", db, coll, part, 150, id+1)
+		onMapped = c09Spec("CreateIndex", edb, coll, part, 150, id+2)
+	}
+	if _, err := deliver(w, dropSpec); err != nil {
+		run.Violate("C09/bookkeeping/mapped-drop-failed/"+level, fmt.Sprintf("%v: %v", rep, err), rep)
+		return
+	}
+	n := h.Len()
+	_, err = deliver(w, older)
+	calls := h.Since(n)
+	if err != nil || len(calls) != 0 {
+		run.Violate("C09/bookkeeping/older-operation-on-source-name-not-skipped-after-mapped-drop/"+level,
+			fmt.Sprintf("%s %q.%q/%q dropped at 200 (mapping %v); %s on the same source names stamped 150 must be skipped successfully; got calls [%s] err %s", level, db, coll, part, mapping, older.Kind, names(calls), errStr(err)), rep)
+	} else {
+		run.Count("bookkeeping_source_name_skips", 1)
+	}
+	if normDB(edb) == normDB(db) && ecoll == coll {
+		return
+	}
+	if level == "database" && edb == "default" {
+		return
+	}
+	n = h.Len()
+	_, err = deliver(w, onMapped)
+	calls = h.Since(n)
+	if err != nil || len(nonProbe(calls)) != 1 {
+		run.Violate("C09/bookkeeping/source-object-bearing-the-mapped-name-affected-by-drop/"+level,
+			fmt.Sprintf("%s %q.%q/%q dropped at 200 (mapping %v); %s on the different source object %q.%q must not be skipped; got calls [%s] err %s", level, db, coll, part, mapping, onMapped.Kind, onMapped.DB, onMapped.Coll, names(calls), errStr(err)), rep)
+	} else {
+		run.Count("bookkeeping_mapped_name_not_skipped", 1)
+	}
+}
+
+// c09ConcurrentDropMapped: under a whole-database mapping the object is dropped (drop event handled by the same
+// writer) while the operation's downstream call is in flight; the call fails; the post-failure decision must be
+// taken on the source names, i.e. end as a successful skip.
+func c09ConcurrentDropMapped(run *vf.Run, kind string, variant int, id int64) {
+	run.Eval(1)
+	db, tdb := "d1", "t1"
+	mapping := map[string]string{"d1.*": "t1.*"}
+	dropPartition := (kind == "LoadPartitions" || kind == "ReleasePartitions") && variant%2 == 1
+	cat := wfakes.NewCatalog()
+	cat.PutDB(tdb, 1)
+	cat.PutColl(tdb, "c1", 5)
+	cat.PutPart(tdb, "c1", "p1", 6)
+	h := &wfakes.Handler{Catalog: cat}
+	var w *writer.ChannelWriter
+	var once sync.Once
+	var dropErr error
+	m := uint64(20)
+	h.Decide = func(c *wfakes.Call) error {
+		if c.Kind != callKindOf[kind] {
+			return nil
+		}
+		once.Do(func() {
+			done := make(chan struct{})
+			go func() {
+				defer close(done)
+				ds := &opSpec{Kind: evDropCollection, DB: db, Coll: "c1", Ts: m + 5, ID: id + 1}
+				if dropPartition {
+					ds = &opSpec{Kind: evDropPartition, DB: db, Coll: "c1", Parts: []string{"p1"}, Ts: m + 5, ID: id + 1}
+				}
+				_, dropErr = deliver(w, ds)
+			}()
+			select {
+			case <-done:
+			case <-time.After(60 * time.Second):
+				dropErr = fmt.Errorf("watchdog: concurrent drop did not finish")
+			}
+		})
+		return nil
+	}
+	var err error
+	w, err = newWriter(h, wcfg{Mapping: mapping})
+	if err != nil {
+		run.Inconclusive(err.Error())
+		return
+	}
+	_, derr := deliver(w, c08Spec(kind, db, "c1", "p1", m, id))
+	calls := h.Calls()
+	if dropErr != nil {
+		run.Inconclusive(fmt.Sprintf("concurrent drop for %s failed: %v", kind, dropErr))
+		return
+	}
+	failed := false
+	for _, c := range calls {
+		if c.Kind == callKindOf[kind] && c.Err != "" {
+			failed = true
+		}
+	}
+	if !failed {
+		return
+	}
+	run.Count("concurrent_drop_under_mapping", 1)
+	run.Nontrivial(fmt.Sprintf("concurrent-drop-mapped|%s|part=%v", kind, dropPartition))
+	if derr != nil {
+		run.Violate("C09/bookkeeping/"+kind+"-not-skipped-after-drop-during-call-under-mapping",
+			fmt.Sprintf("%s on d1.c1/p1 stamped %d, mapping %v: the object was dropped (event stamped %d on the source names, handled by this writer) while the downstream call was in flight and the call failed; the decision after the failure must be taken on the source names and end as a successful skip; returned: %v (calls %s)", kind, m, mapping, m+5, derr, names(calls)),
+			map[string]any{"kind": kind, "mapping": mapping, "drop_partition": dropPartition})
+	}
+}
